@@ -147,7 +147,7 @@ def check(ctx):
     b0 = dict(scn_b[0])
     b0["steps"] = b0["steps"][:6]
     ctx.sample({"kind": "TLC simulated behaviour, two instruments (first 6 of %d steps)" % len(scn_b[0]["steps"]), "scenario": b0})
-    segments = 12 if ctx.quick else 200
+    segments = 12 if ctx.quick else 300
     for mode in ("direct", "stream"):
         run_scenarios(ctx, p_t, scn_t, mode, "transitions")
         run_scenarios(ctx, p_b, scn_b, mode, "behaviours")
